@@ -12,7 +12,8 @@
 #include <string.h>
 #include <stdio.h>
 
-#define VIN_MAX 4096
+/* <= --max-field-sensitivity-array-size so that every log slot is its own SSA symbol */
+#define VIN_MAX 200
 
 #ifdef VCBMC
 uint64_t nondet_u64(void);
@@ -50,7 +51,11 @@ static inline int vin_range(int lo, int hi)
 }
 static inline void vin_bytes(void *p, size_t n)
 {
-    for (size_t i = 0; i < n; i++) ((uint8_t *)p)[i] = vin_u8();
+    /* eight bytes per logged value */
+    for (size_t i = 0; i < n; i += 8) {
+        uint64_t v = vin();
+        for (size_t j = 0; j < 8 && i + j < n; j++) ((uint8_t *)p)[i + j] = (uint8_t)(v >> (8 * j));
+    }
 }
 
 /* environment model controls (env/env.c) */
